@@ -12,6 +12,7 @@ from ..model import opt_makespan
 from ..util import stream, Foreign, h64
 
 PROP = "C08"
+INF = float("inf")
 LEVEL = "exploration"
 N = {"quick": 100000, "thorough": 2000000}
 RULE = ("seeded tiny positive-duration instance (<= 8 operations, quick; <= 10 thorough; flexible or not, recirculation, "
@@ -61,10 +62,15 @@ def execute(case, ctx):
         d.reset()
         remaining = list(order)
         p_rand = 0.0 if k == 0 else 0.3
+        dead_end = False
         for _ in range(n):
             av = d.available_operations()
             if not av:
-                raise Foreign("C07", "filter returned an empty list")
+                # nothing survives the filter although operations are ready: this filtered history cannot be
+                # completed; it simply is no witness (C07 owns non-emptiness as such)
+                dead_end = True
+                ctx.probe("filtered_history_dead_end")
+                break
             if len(av) < len(d.raw_ready_operations()):
                 removed_something = True
             choice = None
@@ -86,6 +92,8 @@ def execute(case, ctx):
             d.dispatch(*choice)
             mark()
         ctx.count("rollout")
+        if dead_end:
+            continue
         mk = d.schedule.makespan()
         if mk < opt:
             raise Foreign("C01", f"a dispatcher history reached makespan {mk} below the exact optimum {opt}")
@@ -93,7 +101,7 @@ def execute(case, ctx):
         if mk == opt:
             ctx.probe("witness_by_seeded_search" if k else "witness_by_first_guided_rollout")
             break
-    ctx.event(0, "search", n, opt, best)
+    ctx.event(0, "search", n, opt, best if best is not None else "dead-end")
     ctx.removed = removed_something
     ctx.sim_time = opt
     if removed_something:
@@ -123,7 +131,8 @@ def execute(case, ctx):
             return memo[key]
         choices = [(o.job_id, o.position_in_job, m) for o in d.available_operations() for m in o.machines]
         if not choices:
-            raise Foreign("C07", "filter returned an empty list")
+            memo[key] = INF  # dead end: no complete filtered history through this state
+            return INF
         res = None
         for c in choices:
             v = dfs(prefix + [c])
@@ -134,6 +143,10 @@ def execute(case, ctx):
         return res
 
     filtered_best = dfs([])
+    if filtered_best == INF:
+        filtered_best_txt = "no filtered history can even be completed (the filter returns an empty list on every path)"
+    else:
+        filtered_best_txt = f"no history that only dispatches operations kept by filter_dominated_operations does better than {filtered_best}"
     ctx.count("exhaustive_confirmation")
     if filtered_best < opt:
         raise Foreign("C01", f"filtered tree reaches {filtered_best} below the exact optimum {opt}")
@@ -141,8 +154,8 @@ def execute(case, ctx):
         ctx.probe("candidate_dismissed")
         return
     ctx.fail("filtered_optimum_equals_optimum",
-             f"instance {spec['jobs']}: OPT = {opt} (e.g. by (job, machine) order {list(order)}), but no history that only dispatches operations kept by "
-             f"filter_dominated_operations does better than {filtered_best} (filtered tree exhausted, {len(memo)} states)")
+             f"instance {spec['jobs']}: OPT = {opt} (e.g. by (job, machine) order {list(order)}), but {filtered_best_txt} "
+             f"(filtered tree exhausted, {len(memo)} states)")
 
 
 def nontrivial(case, ctx):
